@@ -39,6 +39,12 @@ def writer_prog(g, rng, tabs, ntx=1, marker=0):
         else:
             g.nsnap += 1
             prog.append(dict(op="commit", tx=tx, snap=g.nsnap))
+            if rng.random() < 0.7:
+                # the snapshot returned by Commit is the state at its own publish, whatever was committed by others
+                # before Commit returned
+                for t in tabs:
+                    prog.append(dict(op="query", src={"kind": "snap", "id": g.nsnap}, t=t, index="id", q="all", key=[], w=0, ctx="", first=0))
+                    prog.append(dict(op="rev", src={"kind": "snap", "id": g.nsnap}, t=t, ctx="", first=0))
     return prog
 
 
@@ -342,11 +348,12 @@ def gen_directed(rng):
     a_tabs = sorted(rng.sample(g.tables, rng.choice([1, 1, 2])))
     a_prog = writer_prog(g, rng, a_tabs, ntx=1, marker=1)
     a_prog = [o for o in a_prog if o["op"] != "abort"]
-    if a_prog[-1]["op"] != "commit":
+    if not any(o["op"] == "commit" for o in a_prog):
         g.nsnap += 1
         a_prog.append(dict(op="commit", tx=a_prog[0]["tx"], snap=g.nsnap))
     if use_init and 0 in a_tabs:
-        a_prog.insert(-1, dict(op="markdone", tx=a_prog[0]["tx"], t=0, name="a"))
+        ci = [i for i, o in enumerate(a_prog) if o["op"] == "commit"][0]
+        a_prog.insert(ci, dict(op="markdone", tx=a_prog[0]["tx"], t=0, name="a"))
     actors = [dict(name="A", prog=a_prog)]
     others = []
     kind = rng.choice(["writer-disjoint", "writer-overlap", "registrar", "registrar", "reader", "all"])
@@ -418,7 +425,7 @@ def gen_iterwindow(rng):
     g.ops = []
     a_tabs = sorted(set([t0] + (rng.sample(g.tables, 1) if rng.random() < 0.5 else [])))
     a_prog = [o for o in writer_prog(g, rng, a_tabs, ntx=1, marker=1) if o["op"] != "abort"]
-    if a_prog[-1]["op"] != "commit":
+    if not any(o["op"] == "commit" for o in a_prog):
         g.nsnap += 1
         a_prog.append(dict(op="commit", tx=a_prog[0]["tx"], snap=g.nsnap))
     i_prog = []
@@ -558,6 +565,71 @@ def gen_gcblock(rng):
     return [dict(op="sched", setup=setup, actors=actors, schedule=sched, finish=g.ops, gc=True, nilempty=False)]
 
 
+def gen_gclate(rng):
+    """Progress that arrives while a collection pass is under way: the collector is parked at gc.scanned (its scan
+    found the first tombstone collectable), the consumer takes the remaining deletions (their marks trigger the
+    collector again) or the lagging iterator is closed, then the pass finishes.  Afterwards nothing is needed any
+    more and the graveyard must drain."""
+    g = DBGen(rng, "sched")
+    a = g.newtable()
+    if rng.random() < 0.4:
+        g.newtable()
+    tx = g.begin([a])
+    n = rng.randint(3, 5)
+    for i in range(n):
+        g.add(op="insert", tx=tx, t=a, obj=simple_obj(g, i, rng.randint(1, 9)), guard=0, gsym="", w=0)
+    ia = g.changes(tx, a)
+    two = rng.random() < 0.4
+    ib = g.changes(tx, a) if two else None
+    g.commit(tx)
+    s = g.snap()
+    for it in (ia, ib):
+        if it is not None:
+            g.next(it, src=g.snap_src(s), take=-1)
+            g.next(it, src=g.snap_src(s), take=-1)
+    for i in range(n - 1 if rng.random() < 0.5 else 2):
+        tx = g.begin([a])
+        g.add(op="delete", tx=tx, t=a, obj=simple_obj(g, i, 0), guard=0, gsym="", w=0)
+        g.commit(tx)
+    s = g.snap()
+    if ib is not None:
+        g.next(ib, src=g.snap_src(s), take=-1)       # the second iterator is up to date
+    # the first deletion is handed out: its mark starts a pass that can collect exactly that tombstone
+    g.next(ia, src=g.snap_src(s), take=1)
+    setup = g.ops
+    g.ops = []
+    g.nsnap += 1
+    si = g.nsnap
+    g.snaps[si] = dict(g.tgen)
+    if rng.random() < 0.7:
+        iprog = [dict(op="snap", id=si),
+                 dict(op="next", it=ia, src={"kind": "snap", "id": si}, take=-1, w=g.chan()),
+                 dict(op="next", it=ia, src={"kind": "snap", "id": si}, take=-1, w=g.chan())]
+        g.iters[ia]["lastgen"] = g.tgen[a]
+    else:
+        iprog = [dict(op="iterclose", it=ia)]
+        g.iters[ia]["st"] = "closed"
+    actors = [dict(name="I", prog=iprog)]
+    if rng.random() < 0.5:
+        others = [t for t in g.tables if t != a]
+        actors.append(dict(name="W", prog=writer_prog(g, rng, others[:1] or [a], ntx=1, marker=2)))
+    hold = rng.choice([0, 1, 3, 6, 9])          # how far into its write transaction the collector gets first
+    sched = ["GC"] * hold + ["I"] * 6 + (["W"] * rng.choice([0, 5, 30]) if len(actors) > 1 else []) + ["GC"] * 30 + ["W"] * 30
+    for w in list(g.wtx):
+        g.wtx.pop(w)
+    for it, d in g.iters.items():
+        if d["st"] == "open":
+            s2 = g.snap()
+            g.next(it, src=g.snap_src(s2), take=-1)
+            g.next(it, src=g.snap_src(s2), take=-1)
+    # every open iterator has seen every deletion: the graveyard must become empty
+    g.add(op="grave", t=a, quiet=True, until=1)
+    for it, d in g.iters.items():
+        if d["st"] == "open":
+            g.iterclose(it)
+    return [dict(op="sched", setup=setup, actors=actors, schedule=sched, finish=g.ops, gc=True, nilempty=False)]
+
+
 def generate_gcblock(n, seed):
     rng = random.Random(seed)
-    return [gen_gcblock(rng) for _ in range(n)]
+    return [gen_gcblock(rng) if rng.random() < 0.6 else gen_gclate(rng) for _ in range(n)]
